@@ -515,6 +515,15 @@ fn run(args: &[String]) -> i32 {
     extra.insert("simulated_time_ms".into(), json!(counters.get("simulated_time_ms").copied().unwrap_or(0)));
     extra.insert("seeds".into(), json!(format!("VERIF_SEED={seed}; run i of scenario s uses derive_seed(VERIF_SEED ^ fnv(s), i)")));
     extra.insert("violations_of_other_properties_seen".into(), json!(others));
+    if property == "C20" && tier == "thorough" {
+        // calibration of the kernel->notify stub + vendored debouncer queue against the real
+        // notify-debouncer-full over real inotify (needs ~25 s of real time; differences are
+        // reported, they are not violations of C20: they are about the stub)
+        let (agree, total, report) = watch::calibrate();
+        println!("  calibration: {agree} of {total} editor scenarios deliver the same events through the real watcher and through the stub");
+        extra.insert("traces_validated_against_impl".into(), json!(agree));
+        extra.insert("calibration".into(), json!({"scenarios": total, "agree": agree, "report": report}));
+    }
     if property == "C19" {
         extra.insert("exhaustive".into(), json!(true));
         extra.insert("exhaustive_scope".into(), json!("every operation index x 9 fault kinds x {same session, restart} of the base histories of scenario session_enum; the session_faults part samples"));
@@ -638,6 +647,18 @@ fn main() {
         }
         "replay" => replay(args.get(2).map(|s| s.as_str()).unwrap_or("")),
         "selftest" => selftest(&args),
+        "calibrate" => {
+            // development aid (real time, real inotify): the event stub + vendored debouncer
+            // queue against the real notify-debouncer-full
+            let (agree, total, report) = watch::calibrate();
+            for l in &report {
+                println!("{l}");
+            }
+            println!("calibration: {agree} of {total} scenarios agree with the real watcher");
+            let root = verif_root();
+            let _ = std::fs::write(root.join("evidence").join("calibration-C20.txt"), format!("{}\ncalibration: {agree} of {total} scenarios agree with the real watcher\n", report.join("\n")));
+            0
+        }
         "snippets" => {
             snippets();
             0
